@@ -108,3 +108,28 @@ Example C15_example_crash :
   app false [Reg 0 true []; Svc 0; Svc 1; Started; Crash 0] =
   Some ([SvcCancelled 1; Td 0 ACancelled], ORaised (XCrash 0)).
 Proof. vm_compute. reflexivity. Qed.
+
+(* teardown callbacks that raise (any set `raisers` of callback ids): the teardown itself is what it would have
+   been -- every callback still runs once, in reverse order, with the same argument --; without them nothing
+   changes; with them run_application raises one group holding exactly the exceptions of the raising callbacks
+   that ran, in the order in which they ran (plus the crash of a service task if that ended the application) *)
+Theorem C15_raisers_do_not_change_the_teardown : forall cli raisers s o out,
+  finish_r cli raisers s = Some (o, out) -> exists out0, finish cli s = Some (o, out0).
+Proof. exact raisers_do_not_change_the_teardown. Qed.
+Print Assumptions C15_raisers_do_not_change_the_teardown.
+
+Theorem C15_without_raisers : forall cli s, finish_r cli [] s = finish cli s.
+Proof. exact finish_r_without_raisers. Qed.
+Print Assumptions C15_without_raisers.
+
+Theorem C15_raising_callbacks_surface : forall cli raisers s o out,
+  finish cli s = Some (o, out) -> raised_by raisers o <> [] ->
+  finish_r cli raisers s =
+  Some (o, ORaisedTd (raised_by raisers o) (match out with ORaised (XCrash sid) => Some sid | _ => None end)).
+Proof. exact raising_callbacks_surface. Qed.
+Print Assumptions C15_raising_callbacks_surface.
+
+Theorem C15_raised_are_the_raisers_that_ran : forall raisers o id,
+  In id (raised_by raisers o) <-> In id (ran o) /\ In id raisers.
+Proof. exact raised_are_the_raisers_that_ran. Qed.
+Print Assumptions C15_raised_are_the_raisers_that_ran.
